@@ -142,7 +142,7 @@ def corruptions(rng, msg, sites):
             put8(off, 1)
             put8(off, 0x61)
         elif kind == 'sigchar':
-            for v in (ord('z'), ord('a'), ord('('), ord(')'), ord('{'), ord('v'), ord('i'), ord('s'), 0):
+            for v in (ord('z'), ord('a'), ord('('), ord(')'), ord('{'), ord('}'), ord('v'), ord('i'), ord('s'), 0):
                 if v != msg[off]:
                     put8(off, v)
         elif kind == 'endian':
@@ -157,6 +157,17 @@ def corruptions(rng, msg, sites):
                 put8(off, v)
         elif kind == 'serial':
             put32(off, 0)
+    # mis-nesting: two different closing (or opening) brackets of one signature change places
+    sc = [off for off, kind in sites if kind == 'sigchar' and off < len(msg)]
+    for i, a in enumerate(sc):
+        for b_ in sc[i + 1:]:
+            if b_ - a > 12:
+                break
+            if (msg[a] in b')}' and msg[b_] in b')}' or msg[a] in b'({' and msg[b_] in b'({') and msg[a] != msg[b_] \
+                    and all(x in sc for x in range(a, b_)):
+                b = bytearray(msg)
+                b[a], b[b_] = b[b_], b[a]
+                out.append(bytes(b))
     # field codes: the byte after each 8-aligned struct start in the header array is hard to find generically; the
     # 'pad' and 'sigchar' sites cover the variant signatures; add truncations and trailing bytes
     for cut in range(0, len(msg), 1 if len(msg) < 160 else 7):
@@ -180,6 +191,28 @@ def header_limit_cases():
     return out
 
 
+MISNESTED = [('(a{ss}i)', '(a{ss)i}'), ('(a{s(s)})', '(a{s(s})'), ('a{s(i)}', 'a{s(i})'), ('(sa{ss})', '(sa{ss)}'),
+             ('((a{ss}))', '((a{ss)})'), ('(a{sv}s)', '(a{sv)s}'), ('a(a{ss}i)', 'a(a{ss)i}'), ('(ia{s(ii)})', '(ia{s(ii})')]
+
+
+def misnested_cases(rng):
+    """well-formed messages whose body signature (or a signature-typed value) has its brackets crossed"""
+    out = []
+    for good, bad in MISNESTED:
+        for le in (True, False):
+            f = {F_PATH: '/a', F_INTERFACE: 'a.b', F_MEMBER: 'M'}
+            m = build_message(SIGNAL, 7, f, good, [rand_val(rng, good)], le=le)
+            assert m.count(good.encode()) == 1
+            out.append(m)
+            out.append(m.replace(good.encode(), bad.encode()))
+            m = build_message(SIGNAL, 7, f, 'g', [good], le=le)
+            out.append(m.replace(good.encode(), bad.encode()))
+            m = build_message(SIGNAL, 7, f, 'v', [(good, rand_val(rng, good))], le=le)
+            out.append(m)
+            out.append(m.replace(good.encode(), bad.encode()))
+    return out
+
+
 def dem_cases(rng, nmsgs, random_bytes=200):
     cases = []
     for _ in range(nmsgs):
@@ -196,6 +229,7 @@ def dem_cases(rng, nmsgs, random_bytes=200):
             cases.append(m + m2)
             cases.append(m + m2[:rng.randrange(len(m2))])
     cases.extend(header_limit_cases())
+    cases.extend(misnested_cases(rng))
     for _ in range(random_bytes):
         n = rng.choice([0, 1, 15, 16, 17, 40, 100])
         cases.append(bytes(rng.randrange(256) for _ in range(n)))
